@@ -65,6 +65,7 @@ class Run:
         self.ext_stopped = []    # per pc: transports stopped by a negotiation call
         self.ntrx_at_close = []
         self.recording = True
+        self.ev_trigger = None   # [event code, countdown, pcs, callback]
 
     def add_pc(self, pc):
         self.pcs.append(pc)
@@ -125,6 +126,12 @@ class Run:
     def log(self, p, *ev):
         if self.recording:
             self.trace[p].append(list(ev))
+            trg = self.ev_trigger
+            if trg is not None and ev[0] == trg[0] and p in trg[2]:
+                trg[1] -= 1
+                if trg[1] <= 0:
+                    self.ev_trigger = None
+                    trg[3]()          # close() is invoked at this very lifecycle event
 
 
 def _log_obj(obj, roles, mk):
@@ -494,7 +501,7 @@ class CountingLoop(asyncio.SelectorEventLoop):
             if self.count >= self.target:
                 self.armed = False
                 f, self.fire = self.fire, None
-                super().call_soon(f)
+                f()      # the close() task is queued right behind the k-th callback
 
     def call_soon(self, callback, *args, **kw):
         h = super().call_soon(callback, *args, **kw)
@@ -720,6 +727,10 @@ async def _scenario(case, loop, run):
             fire()
             # let the close() calls run up to their first suspension before the next negotiation call
             await asyncio.sleep(0)
+        elif k >= 1000:
+            # at the n-th lifecycle event of a kind on (one of) the closing side(s)
+            run.ev_trigger = [(k - 1000) // 10, max(1, (k - 1000) % 10),
+                              [0] if who == 0 else [1] if who == 1 else [0, 1], fire]
         else:
             loop.arm(k, fire)
 
@@ -774,6 +785,7 @@ async def _scenario(case, loop, run):
     if not fired.is_set():
         late = 1
         loop.armed = False
+        run.ev_trigger = None
         fire()
     # ---- wait for the requested close() calls
     status = 0
@@ -910,6 +922,15 @@ def run_real(case):
         asyncio.set_event_loop(None)
 
 
+EVENT_CODE_NAMES = ["ice_start", "ice_start_ret", "dtls_start", "dtls_start_ret", "send", "receive", "sctp_start",
+                    "task_begin", "task_end", "pump_end", "monitor_end", "remote_bye", "ice_lost", "nego_sig",
+                    "channel_new", "close_call", "close_ret", "stop_call", "stop_ret", "cancel",
+                    "ice_conn_closed", "sctp_down", "cand_end"]
+EVENT_NAMES = {E_ICE_START: "RTCIceTransport.start()", E_ICE_START_RET: "ICE connect() finished",
+               E_DTLS_START: "RTCDtlsTransport.start()", E_DTLS_START_RET: "DTLS handshake finished",
+               E_SEND: "RTCRtpSender.send()", E_RECEIVE: "RTCRtpReceiver.receive()",
+               E_SCTP_START: "RTCSctpTransport.start()", E_TASK_BEGIN: "a sender/receiver task begins",
+               E_CAND_END: "end of remote candidates", E_NEGO_SIG: "signalling state change"}
 POINT_NAMES = ["before negotiation", "after createOffer", "after offerer.setLocalDescription",
                "after answerer.setRemoteDescription", "after createAnswer", "after answerer.setLocalDescription",
                "after offerer.setRemoteDescription (connecting)", "connected, media/data flowing",
@@ -937,7 +958,8 @@ class C19(Check):
         "runs (such runs skip the replay and keep the oracle).")
     rule = ("real peer-connection pairs: 0-2 audio and 0-2 video transceivers offered, answerer sending on a subset, "
             "0-2 data channels, 3 bundle policies, close() at 9 negotiation points exactly or at the k-th event-loop "
-            "callback after it (k<=250), on offerer / answerer / both, once or twice concurrently, optional injected "
+            "callback after it (k<=250) or exactly at a lifecycle event (ICE/DTLS start or completion, send(), "
+            "receive(), sctp.start(), task begin, ...), on offerer / answerer / both, once or twice concurrently, optional injected "
             "failure of an RTCP task; distinct by (case, recorded traces); non-trivial = close() had at least one "
             "started task or transport to stop (a cancel or an ICE shutdown occurs in the trace)")
 
@@ -965,6 +987,13 @@ class C19(Check):
             k = rng.randrange(40, 250)
         if point >= 7 and k > 60:
             k = rng.randrange(0, 60)
+        if point <= 6 and rng.random() < 0.3:
+            # close() invoked exactly at a lifecycle event (ICE/DTLS start or its completion, send(),
+            # receive(), sctp.start(), a task body beginning, end of candidates, a signalling change)
+            k = 1000 + 10 * rng.choice([E_ICE_START, E_ICE_START_RET, E_DTLS_START, E_DTLS_START_RET,
+                                        E_DTLS_START_RET, E_SEND, E_SEND, E_RECEIVE, E_RECEIVE, E_SCTP_START,
+                                        E_TASK_BEGIN, E_CAND_END, E_NEGO_SIG]) + rng.choice([1, 1, 2])
+            point = rng.choice([0, 2, 3, 5])
         who = rng.choice([0, 1, 2, 2])
         twice = 1 if rng.random() < 0.3 else 0
         fault = rng.choice([0, 0, 1, 2, 3]) if point >= 7 else 0
@@ -986,7 +1015,9 @@ class C19(Check):
         policy, na, nv, ba, bv, dc, point, k, who, twice, fault = case[:11]
         return {"case": case, "bundlePolicy": ["balanced", "max-compat", "max-bundle"][policy],
                 "offerer_tracks": {"audio": na, "video": nv}, "answerer_tracks": {"audio": ba, "video": bv},
-                "data_channels": dc, "close_at": POINT_NAMES[point] + (f" + {k} event-loop callbacks" if k else ""),
+                "data_channels": dc, "close_at": POINT_NAMES[point] + ("" if k == 0 else f" + {k} event-loop callbacks" if k < 1000 else
+                                                 f", then at occurrence {(k - 1000) % 10} of lifecycle event "
+                                                 f"{EVENT_NAMES.get((k - 1000) // 10, (k - 1000) // 10)}"),
                 "closing_side": ["offerer", "answerer", "both concurrently"][who], "twice_concurrently": bool(twice),
                 "injected_task_failure": ["none", "receiver _run_rtcp raises", "sender _run_rtcp raises",
                                           "sender BYE raises"][fault]}
@@ -1094,8 +1125,8 @@ class C19(Check):
     def distribution(self, cases, outs):
         d = {"runs": 0, "retried": 0, "late_trigger": 0, "replay_skipped_pcs": 0, "events": 0,
              "close_ms_max": 0, "by_point": {}, "by_side": {}, "by_policy": {}, "twice": 0, "fault": {},
-             "exact_point": 0, "kth_callback": 0, "nego_call_overtaken": 0, "cancels": 0, "ice_shutdowns": 0,
-             "tasks_begun": 0, "pumps_ended": 0, "closes_with_task_not_yet_started": 0}
+             "exact_point": 0, "kth_callback": 0, "at_lifecycle_event": 0, "nego_call_overtaken": 0, "cancels": 0, "ice_shutdowns": 0,
+             "tasks_begun": 0, "pumps_ended": 0, "closes_with_task_not_yet_started": 0, "event_kinds": {}}
         for c in cases:
             res = self.stash.get(json.dumps(c))
             if not res:
@@ -1110,9 +1141,12 @@ class C19(Check):
             d["by_policy"][str(c[0])] = d["by_policy"].get(str(c[0]), 0) + 1
             d["twice"] += c[9]
             d["fault"][str(c[10])] = d["fault"].get(str(c[10]), 0) + 1
-            d["exact_point" if c[7] == 0 else "kth_callback"] += 1
+            d["exact_point" if c[7] == 0 else "kth_callback" if c[7] < 1000 else "at_lifecycle_event"] += 1
             d["nego_call_overtaken"] += 1 if res["detail"].get("nego") else 0
             for tr in res["traces"]:
+                for ev in tr:
+                    name = EVENT_CODE_NAMES[ev[0]] if ev[0] < len(EVENT_CODE_NAMES) else str(ev[0])
+                    d["event_kinds"][name] = d["event_kinds"].get(name, 0) + 1
                 d["events"] += len(tr)
                 begun = set()
                 for ev in tr:
